@@ -93,6 +93,34 @@ class Prop(PropBase):
                         s.lines.append(f'F 0 {len(f)} {f.hex()}')
             s.lines.append('GO 0')
             scn.append(s.text(residual=()))
+        # one fixed scenario with every pattern the reassembler has to get right, whatever the seed
+        msop, difop = base, base + 1
+        cfg = pktgen.Cfg(wait=0, dense=0, pktcb=1, lclock=1)
+        s = scen.Scn('c16_fixed')
+        s.lines.append(cfg.line(0, lj)); s.lines.append(f'N 0 3 {msop} {difop} 0 0')
+        def dgram(tag, size, port=msop):
+            payload = (b'\x55\xaa' + bytes([tag]) + bytes((tag * 7 + q) & 0xff for q in range(size - 3)))
+            return (6699).to_bytes(2, 'big') + port.to_bytes(2, 'big') + ((8 + len(payload)) & 0xffff).to_bytes(2, 'big') + b'\x00\x00' + payload
+        def frags(dg, ipid, fs, port=msop, ihl=5, df=False):
+            out_, off = [], 0
+            while off < len(dg):
+                out_.append(udp_frame(b'', port, ip_id=ipid, ihl=ihl, frag_off=off, more=(off + fs < len(dg)), raw_ip_payload=dg[off:off + fs], df=df)); off += fs
+            return out_
+        seqs = []
+        seqs += frags(dgram(1, 4000), 0x2222, 1480)                                  # plain train
+        seqs += frags(dgram(2, 4000), 0x2222, 1480)                                  # the same identification again, right behind it
+        seqs += [udp_frame(dgram(3, 300)[8:], msop, ip_id=0x2222)]                   # unfragmented, same identification
+        seqs += frags(dgram(4, 3000), 7, 1480, ihl=6)                                # IP options on every fragment
+        seqs += [udp_frame(dgram(5, 200)[8:], msop, ip_id=8, ihl=15, df=True)]       # unfragmented, options, don't-fragment bit
+        t6 = frags(dgram(6, 4000), 9, 1480); seqs += [t6[0], t6[2], t6[1]]           # the last fragment overtakes: nothing delivered
+        t7 = frags(dgram(7, 4000), 10, 1480); seqs += [t7[0], t7[1], t7[0], t7[2]]   # the first fragment repeated after the second
+        t8 = frags(dgram(8, 4000), 11, 1480); seqs += [t8[0], (len(t8[1]), t8[1][:96]), t8[2]]      # a fragment cut by the snap length
+        t9 = frags(dgram(9, 4000), 12, 1480); seqs += [t9[0], udp_frame(dgram(10, 100, difop)[8:], difop, ip_id=12), t9[1], t9[2]]   # unfragmented inside a train
+        seqs += frags(dgram(11, 2000), 0, 1480) + [udp_frame(dgram(12, 50)[8:], msop, ip_id=0), udp_frame(dgram(13, 60)[8:], msop, ip_id=0)]   # identification 0
+        for f in seqs:
+            s.lines.append(f'F 0 {f[0]} {f[1].hex()}' if isinstance(f, tuple) else f'F 0 {len(f)} {f.hex()}')
+        s.lines.append('GO 0')
+        scn.append(s.text(residual=()))
         return [('jumbo', '\n'.join(scn) + '\n')]
 
     def classify(self, name, lines):
